@@ -36,3 +36,29 @@ impl<T, E: std::fmt::Debug> HqUnwrap<T> for Result<T, E> {
 // std::mem::take: returns the old value (the replacement value T::default() is left unspecified)
 pub assume_specification<T: Default> [std::mem::take] (dest: &mut T) -> (r: T)
     ensures r == *old(dest);
+
+// N14 (diverge mode): an index *read* returns the element or diverges (out of range = panic)
+trait HqIndex<I> {
+    type Out;
+    spec fn hq_in(&self, i: I) -> bool;
+    spec fn hq_at(&self, i: I) -> Self::Out;
+    fn hq_index(&self, i: I) -> (r: &Self::Out)
+        ensures self.hq_in(i), *r == self.hq_at(i);
+}
+impl<T> HqIndex<usize> for Vec<T> {
+    type Out = T;
+    spec fn hq_in(&self, i: usize) -> bool { (i as int) < self@.len() }
+    spec fn hq_at(&self, i: usize) -> T { self@[i as int] }
+    #[verifier::external_body]
+    fn hq_index(&self, i: usize) -> (r: &T) { unimplemented!() }
+}
+impl<T> HqIndex<usize> for [T] {
+    type Out = T;
+    spec fn hq_in(&self, i: usize) -> bool { (i as int) < self@.len() }
+    spec fn hq_at(&self, i: usize) -> T { self@[i as int] }
+    #[verifier::external_body]
+    fn hq_index(&self, i: usize) -> (r: &T) { unimplemented!() }
+}
+
+// "x occurs among the first n elements of s"
+spec fn seq_has<T>(s: Seq<T>, n: int, x: T) -> bool { exists|i: int| 0 <= i < n && #[trigger] s[i] == x }
